@@ -14,14 +14,14 @@ from . import common
 PROP = "C11"
 LEVEL = "model_checking"
 RULE = (
-    "X-SEQ on the live compiler, two explorations over an alphabet of 18 compile requests chosen so that every piece of process-wide state named in the "
+    "X-SEQ on the live compiler, two explorations over an alphabet of 19 compile requests chosen so that every piece of process-wide state named in the "
     "property's anchors is written by one request and read by another (verbose / compact output of one source; a directive-carrying "
-    "source; two sources with the same constexpr call text but different function bodies and one with an identical helper script; a "
+    "source in the canonical and in a non-canonical spelling; two sources with the same constexpr call text but different function bodies and one with an identical helper script; a "
     "source that prints a positive prefab hash and large integers, i.e. the lazily built hash set; device alias / reference-id / Stack "
     "sources that touch the module-level device singletons; sources that assign / read the named registers sp, ra, r7; a source that aborts with an error in the middle of code generation; a "
     "multi-module source).  (1) Every history of length <= 2 (quick) / <= 3 (thorough; at most 2 steps when a constexpr request is "
     "involved) runs in its own fork of a pristine parent process that has imported the package but never compiled.  (2) Long "
-    "histories: the de Bruijn sequence B(18, 3) (quick, 5832 steps) / B(18, 4) (thorough, 104976 steps), in which every window of 3 / 4 "
+    "histories: the de Bruijn sequence B(19, 3) (quick, 6859 steps) / B(19, 4) (thorough, 130321 steps), in which every window of 3 / 4 "
     "consecutive requests occurs, is run from 8 (quick) / 16 (thorough) different start offsets, each in one fork, with the options objects and source "
     "mappings reused throughout.  After EACH step of every history: "
     "result == the fresh-process oracle of that request (computed in 3 separate processes with different PYTHONHASHSEED, which must "
@@ -59,6 +59,7 @@ def requests():
         "verbose": (SRC_H, {}),
         "compact": (SRC_H, {"compact": True, "remove_labels": True}),
         "directive": ("# pytrapic: compact, remove-labels, no-append-version\n" + SRC_H, {"append_version": True}),
+        "directive-nospace": ("#pytrapic: compact, remove-labels\n##  pytrapic: no-inline-functions\n" + SRC_H, {}),
         "cx-body1": (CX.format(m=3) + "db.Setting = cx(7)\n", {}),
         "cx-body2": (CX.format(m=5) + "db.Setting = cx(7)\n", {}),
         "cx-same-script": (CX.format(m=3) + "db.On = cx(7)\ndb.Setting = d0.Setting\n", {"compact": True}),
